@@ -4,193 +4,481 @@ package zz_verif
 
 import (
 	ipfslog "berty.tech/go-ipfs-log"
+	"berty.tech/go-ipfs-log/accesscontroller"
+	"berty.tech/go-ipfs-log/entry"
 	idp "berty.tech/go-ipfs-log/identityprovider"
-	"berty.tech/go-ipfs-log/entry/sorting"
+	"berty.tech/go-ipfs-log/iface"
 	"berty.tech/go-ipfs-log/internal/vx"
+	"github.com/ipfs/go-cid"
 )
 
-// H_smoke: one append, check basics (engine bring-up).
-func H_smoke() {
-	api := newMemAPI()
-	idA := mockIdentity("A", []byte{1})
-	l := newLog(api, idA, nil)
-	e, err := l.Append(ctx, []byte("p0"), nil)
-	vx.Assert("SMOKE", err == nil, "append ok")
-	vx.Assert("SMOKE", l.Len() == 1, "len 1")
-	vx.Assert("SMOKE", e.GetClock().GetTime() == 1, "time 1")
-	e2, _ := l.Append(ctx, []byte("p1"), nil)
-	vx.Assert("SMOKE", e2.GetClock().GetTime() == 2, "time 2")
-	vx.Assert("SMOKE", len(e2.GetNext()) == 1, "one next")
-	vx.Assert("SMOKE", l.Values().Len() == 2, "values 2")
-	vx.Cover("smoke-done")
+// ---- history driver: R replicas of one log id, K symbolic steps of append / join / reload ----
+//
+// Every state examined is produced by the real exported operations, so it is reachable by
+// construction. The step kind is a vx.Choice (decision variable, all values explored); hash ranks,
+// and with SYMCLOCK the initial clock values, are SMT variables.
+
+const (
+	opAppend = 0
+	opJoin   = 1
+	opReload = 2
+)
+
+type histCfg struct {
+	R, K, W  int
+	sort     int
+	symClock bool
+	reload   bool // step kind "reload": rebuild the replica from its entries with NewLog (what the loaders do)
+	deny     bool // replica 0 refuses entries signed by the last writer
+	pcN      int  // number of pointer-count alternatives tried at each append (1 = default only)
 }
 
-// H_hist: R replicas, K symbolic steps of append/join; C02 invariant after every step; C01-style convergence at the end.
-func H_hist() {
-	const R, K = 2, 4
-	api := newMemAPI()
-	ids := []*idp.Identity{mockIdentity("A", []byte{1}), mockIdentity("B", []byte{2})}
-	logs := make([]*ipfslog.IPFSLog, R)
-	for r := range logs {
-		logs[r] = newLog(api, ids[r], sorting.SortByEntryHash)
-	}
-	payload := []string{"p0", "p1", "p2", "p3", "p4", "p5"}
-	for s := 0; s < K; s++ {
-		op := vx.Choice("op", R+R*(R-1))
-		if s == 0 {
-			vx.Assume(op == 0)
+func histParams() histCfg {
+	return histCfg{R: vx.Param("R", 2), K: vx.Param("K", 3), W: vx.Param("W", 2), sort: vx.Param("SORT", sortHash),
+		symClock: vx.Param("SYMCLOCK", 0) == 1, reload: vx.Param("RELOAD", 0) == 1, deny: vx.Param("DENY", 0) == 1, pcN: vx.Param("PCN", 1)}
+}
+
+var pcTable = []int{0, 2, 4, 3, 8, -1, 16, 1}
+
+type hist struct {
+	cfg     histCfg
+	api     *memAPI
+	ids     []*idp.Identity
+	logs    []*ipfslog.IPFSLog
+	acs     []accesscontroller.Interface
+	step    int
+	nAppend int
+	// last operation
+	kind, dst, src, pc int
+	res                iface.IPFSLogEntry
+	err                error
+}
+
+func (h *hist) sortFn() iface.EntrySortFn { return pickSort(h.cfg.sort) }
+
+func (h *hist) writerOf(r int) *idp.Identity { return h.ids[r%h.cfg.W] }
+
+func newHist(cfg histCfg) *hist {
+	h := &hist{cfg: cfg, api: newMemAPI(), ids: mockIdentities(cfg.W)}
+	for r := 0; r < cfg.R; r++ {
+		o := &ipfslog.LogOptions{SortFn: h.sortFn()}
+		if cfg.deny && r == 0 && cfg.W > 1 {
+			o.AccessController = &denyWriter{id: h.ids[cfg.W-1].ID}
 		}
-		if op < R {
-			_, err := logs[op].Append(ctx, []byte(payload[s]), nil)
-			vx.Assert("C04", err == nil, "append succeeds")
-		} else {
-			k := op - R
-			dst := k / (R - 1)
-			src := k % (R - 1)
-			if src >= dst {
-				src++
+		h.acs = append(h.acs, o.AccessController)
+		if cfg.symClock {
+			o.Clock = entry.NewLamportClock(h.writerOf(r).PublicKey, vx.IntRange("clock0", 0, 1<<40))
+		}
+		h.logs = append(h.logs, newLogOpt(h.api, h.writerOf(r), o))
+	}
+	return h
+}
+
+// strictTotal reports whether the configured ordering is a strict total order on every entry set this
+// history can produce: always for the hash tie-break; for last/first-write-wins when no two entries can
+// share (clock id, time), i.e. every replica has its own writer key and replicas are never rebuilt.
+func (h *hist) strictTotal() bool {
+	return h.cfg.sort == sortHash || (h.cfg.W >= h.cfg.R && !h.cfg.reload && !h.cfg.symClock)
+}
+
+// run performs K steps; pre/post are the property-specific observers.
+func (h *hist) run(pre func(h *hist), post func(h *hist)) {
+	R := h.cfg.R
+	nOps := R + R*(R-1)
+	if h.cfg.reload {
+		nOps += R
+	}
+	for s := 0; s < h.cfg.K; s++ {
+		h.step = s
+		op := 0
+		if s > 0 {
+			op = vx.Choice("op", nOps) // symmetry breaking: the first step is an append on replica 0
+		}
+		h.res, h.err, h.pc = nil, nil, 0
+		switch {
+		case op < R:
+			h.kind, h.dst, h.src = opAppend, op, -1
+			if h.cfg.pcN > 1 {
+				h.pc = pcTable[vx.Choice("pc", h.cfg.pcN)]
 			}
-			_, err := logs[dst].Join(logs[src], -1)
-			vx.Assert("C06", err == nil, "join of valid log succeeds")
-		}
-		for r := range logs {
-			es := logs[r].GetEntries().Slice()
-			hs := logs[r].Heads().Slice()
-			vx.Assert("C02", sameSet(hashSet(hs), refHeads(es)), "heads are exactly the unreferenced entries")
-			vx.Assert("C03", logs[r].Values().Len() == len(es), "values complete")
-		}
-	}
-	// exchange: X merges 0 then 1; Y merges 1 then 0
-	X := newLog(api, ids[0], sorting.SortByEntryHash)
-	Y := newLog(api, ids[1], sorting.SortByEntryHash)
-	X.Join(logs[0], -1)
-	X.Join(logs[1], -1)
-	Y.Join(logs[1], -1)
-	Y.Join(logs[0], -1)
-	Y.Join(logs[1], -1)
-	vx.Assert("C01", sameSet(hashSet(X.GetEntries().Slice()), hashSet(Y.GetEntries().Slice())), "same entries")
-	vx.Assert("C01", sameSet(hashSet(X.Heads().Slice()), hashSet(Y.Heads().Slice())), "same heads")
-	xv, yv := X.Values().Slice(), Y.Values().Slice()
-	vx.Assert("C01", len(xv) == len(yv), "same length")
-	for i := range xv {
-		if i < len(yv) {
-			vx.Assert("C01", xv[i].GetHash().String() == yv[i].GetHash().String(), "same linearisation")
-		}
-	}
-	vx.Cover("hist-done")
-}
-
-// H_hist: R replicas, K symbolic steps of append/join; C02 invariant after every step; C01-style convergence at the end.
-func H_hist2() {
-	const R, K = 2, 5
-	api := newMemAPI()
-	ids := []*idp.Identity{mockIdentity("A", []byte{1}), mockIdentity("B", []byte{1})}
-	logs := make([]*ipfslog.IPFSLog, R)
-	for r := range logs {
-		logs[r] = newLog(api, ids[r], sorting.SortByEntryHash)
-	}
-	payload := []string{"p0", "p1", "p2", "p3", "p4", "p5"}
-	for s := 0; s < K; s++ {
-		op := vx.Choice("op", R+R*(R-1))
-		if s == 0 {
-			vx.Assume(op == 0)
-		}
-		if op < R {
-			_, err := logs[op].Append(ctx, []byte(payload[s]), nil)
-			vx.Assert("C04", err == nil, "append succeeds")
-		} else {
+		case op < R+R*(R-1):
 			k := op - R
-			dst := k / (R - 1)
-			src := k % (R - 1)
-			if src >= dst {
-				src++
+			h.kind, h.dst, h.src = opJoin, k/(R-1), k%(R-1)
+			if h.src >= h.dst {
+				h.src++
 			}
-			_, err := logs[dst].Join(logs[src], -1)
-			vx.Assert("C06", err == nil, "join of valid log succeeds")
+		default:
+			h.kind, h.dst, h.src = opReload, op-R-R*(R-1), -1
 		}
-		for r := range logs {
-			es := logs[r].GetEntries().Slice()
-			hs := logs[r].Heads().Slice()
-			vx.Assert("C02", sameSet(hashSet(hs), refHeads(es)), "heads are exactly the unreferenced entries")
-			vx.Assert("C03", logs[r].Values().Len() == len(es), "values complete")
+		if pre != nil {
+			pre(h)
+		}
+		switch h.kind {
+		case opAppend:
+			var opts *ipfslog.AppendOptions
+			if h.pc != 0 {
+				opts = &ipfslog.AppendOptions{PointerCount: h.pc}
+			}
+			h.res, h.err = h.logs[h.dst].Append(ctx, []byte{'p', byte('0' + h.nAppend)}, opts)
+			h.nAppend++
+		case opJoin:
+			_, h.err = h.logs[h.dst].Join(h.logs[h.src], -1)
+		case opReload:
+			old := h.logs[h.dst]
+			h.logs[h.dst] = newLogOpt(h.api, h.writerOf(h.dst), &ipfslog.LogOptions{SortFn: h.sortFn(), Entries: old.GetEntries(), AccessController: h.acs[h.dst]})
+		}
+		// observations for native cross-validation of sampled paths
+		vx.Observe("kind", h.kind)
+		vx.ObserveB("err", h.err != nil)
+		vx.ObserveS("values", payloads(h.logs[h.dst].Values().Slice()))
+		vx.Observe("heads", h.logs[h.dst].Heads().Len())
+		if post != nil {
+			post(h)
 		}
 	}
-	// exchange: X merges 0 then 1; Y merges 1 then 0
-	X := newLog(api, ids[0], sorting.SortByEntryHash)
-	Y := newLog(api, ids[1], sorting.SortByEntryHash)
-	X.Join(logs[0], -1)
-	X.Join(logs[1], -1)
-	Y.Join(logs[1], -1)
-	Y.Join(logs[0], -1)
-	Y.Join(logs[1], -1)
-	vx.Assert("C01", sameSet(hashSet(X.GetEntries().Slice()), hashSet(Y.GetEntries().Slice())), "same entries")
-	vx.Assert("C01", sameSet(hashSet(X.Heads().Slice()), hashSet(Y.Heads().Slice())), "same heads")
-	xv, yv := X.Values().Slice(), Y.Values().Slice()
-	vx.Assert("C01", len(xv) == len(yv), "same length")
-	for i := range xv {
-		if i < len(yv) {
-			vx.Assert("C01", xv[i].GetHash().String() == yv[i].GetHash().String(), "same linearisation")
-		}
-	}
-	vx.Cover("hist-done")
+	vx.Cover("history-complete")
 }
 
-// H_hist: R replicas, K symbolic steps of append/join; C02 invariant after every step; C01-style convergence at the end.
-func H_hist3() {
-	const R, K = 3, 4
-	api := newMemAPI()
-	ids := []*idp.Identity{mockIdentity("A", []byte{1}), mockIdentity("B", []byte{1}), mockIdentity("C", []byte{2})}
-	logs := make([]*ipfslog.IPFSLog, R)
-	for r := range logs {
-		logs[r] = newLog(api, ids[r], sorting.SortByEntryHash)
+func entriesOf(l *ipfslog.IPFSLog) []iface.IPFSLogEntry { return l.GetEntries().Slice() }
+
+// ---- C02: heads are exactly the unreferenced entries ----
+
+func checkHeads(l iface.IPFSLog, what string) {
+	es := l.GetEntries().Slice()
+	want := refHeads(es)
+	hs := l.Heads().Slice()
+	vx.Assert("C02", sameSet(hashSet(hs), want), "Heads() are exactly the entries no other entry of the log names as predecessor ("+what+")")
+	vx.Assert("C02", len(hs) == len(hashSet(hs)), "Heads() contains no duplicate ("+what+")")
+	vx.Assert("C02", sameSet(hashSet(l.RawHeads().Slice()), want), "RawHeads() are exactly the unreferenced entries ("+what+")")
+	vx.Assert("C02", sameSet(cidSet(l.ToSnapshot().Heads), want), "ToSnapshot().Heads are exactly the unreferenced entries ("+what+")")
+	vx.Assert("C02", (len(hs) == 0) == (len(es) == 0), "heads are non-empty iff the log is non-empty ("+what+")")
+	vx.Assert("C02", subset(hashSet(hs), hashSet(es)), "every head is an entry of the log ("+what+")")
+	if len(es) > 0 {
+		jl := l.ToJSONLog()
+		vx.Assert("C02", sameSet(cidSet(jl.Heads), want), "ToJSONLog().Heads are exactly the unreferenced entries ("+what+")")
 	}
-	payload := []string{"p0", "p1", "p2", "p3", "p4", "p5"}
-	for s := 0; s < K; s++ {
-		op := vx.Choice("op", R+R*(R-1))
-		if s == 0 {
-			vx.Assume(op == 0)
+}
+
+func H_C02_hist() {
+	h := newHist(histParams())
+	h.run(nil, func(h *hist) {
+		for _, l := range h.logs {
+			checkHeads(l, "after a history step")
 		}
-		if op < R {
-			_, err := logs[op].Append(ctx, []byte(payload[s]), nil)
-			vx.Assert("C04", err == nil, "append succeeds")
+		if h.kind == opAppend && h.err == nil {
+			vx.Cover("append")
+		}
+		if h.kind == opJoin && h.err == nil {
+			vx.Cover("join")
+		}
+	})
+}
+
+// ---- C03: Values() is a complete, duplicate-free, causally ordered, sorted linearisation ----
+
+func checkValues(h *hist, l *ipfslog.IPFSLog, what string) {
+	es := l.GetEntries().Slice()
+	v := l.Values().Slice()
+	vx.Assert("C03", len(v) == len(es), "Values() has one element per entry of the log ("+what+")")
+	vx.Assert("C03", sameSet(hashSet(v), hashSet(es)), "Values() contains exactly the entries of the log, each once ("+what+")")
+	pos := map[string]int{}
+	for i, e := range v {
+		pos[hstr(e)] = i
+	}
+	ok := true
+	for i, e := range v {
+		for _, n := range e.GetNext() {
+			if p, in := pos[n.String()]; in && p >= i {
+				ok = false
+			}
+		}
+	}
+	vx.Assert("C03", ok, "every entry comes after all of its predecessors that are in the log ("+what+")")
+	sv := l.ToSnapshot().Values
+	vx.Assert("C03", sameSeq(sv, v), "ToSnapshot().Values equals Values() ("+what+")")
+	if !h.strictTotal() {
+		return
+	}
+	cmp := h.sortFn()
+	for i := 0; i+1 < len(v); i++ {
+		r, err := cmp(v[i], v[i+1])
+		vx.Assert("C03", err == nil && r < 0, "Values() is sorted by the configured ordering ("+what+")")
+	}
+	// arrival-order independence: the same entries inserted in reverse order linearise identically
+	rev := entry.NewOrderedMap()
+	for i := len(es) - 1; i >= 0; i-- {
+		rev.Set(hstr(es[i]), es[i])
+	}
+	l2 := newLogOpt(h.api, h.ids[0], &ipfslog.LogOptions{SortFn: cmp, Entries: rev})
+	vx.Assert("C03", sameSeq(l2.Values().Slice(), v), "Values() depends only on the set of entries, not on their arrival order ("+what+")")
+}
+
+func H_C03_hist() {
+	h := newHist(histParams())
+	h.run(nil, func(h *hist) {
+		for _, l := range h.logs {
+			checkValues(h, l, "after a history step")
+		}
+		if h.kind == opJoin && h.err != nil {
+			vx.Cover("rejected-join")
+		}
+		if h.kind == opJoin && h.err == nil {
+			vx.Cover("join")
+		}
+	})
+}
+
+// ---- C04: every appended entry dominates the log it was appended to ----
+
+func ilog2(n int) int {
+	k := 0
+	for n > 1 {
+		n /= 2
+		k++
+	}
+	return k
+}
+
+func H_C04_hist() {
+	h := newHist(histParams())
+	var heads, before []iface.IPFSLogEntry
+	h.run(func(h *hist) {
+		if h.kind == opAppend {
+			heads = h.logs[h.dst].Heads().Slice()
+			before = entriesOf(h.logs[h.dst])
+		}
+	}, func(h *hist) {
+		if h.kind != opAppend {
+			return
+		}
+		vx.Assert("C04", h.err == nil && h.res != nil, "Append on a permissive log succeeds")
+		if h.err != nil || h.res == nil {
+			return
+		}
+		e, l := h.res, h.logs[h.dst]
+		vx.Cover("append-checked")
+		if len(before) > 0 && len(heads) > 1 {
+			vx.Cover("append-on-forked-log")
+		}
+		vx.Assert("C04", sameSet(cidSet(e.GetNext()), hashSet(heads)), "the new entry names exactly the previous heads as predecessors")
+		vx.Assert("C04", len(e.GetNext()) == len(heads), "the predecessor list has no duplicates")
+		id := e.GetClock().GetID()
+		pk := h.writerOf(h.dst).PublicKey
+		vx.Assert("C04", string(id) == string(pk), "the clock id is the writer's public key")
+		t := e.GetClock().GetTime()
+		for _, o := range before {
+			vx.Assert("C04", t > o.GetClock().GetTime(), "the clock time is strictly greater than that of every entry already in the log")
+		}
+		hs := l.Heads().Slice()
+		vx.Assert("C04", len(hs) == 1 && hstr(hs[0]) == hstr(e), "the new entry is the log's single head")
+		got, in := l.Get(e.GetHash())
+		vx.Assert("C04", in && got != nil && hstr(got) == hstr(e), "the new entry is in the log")
+		// skip references
+		past := refPast(keys(hashSet(heads)), before)
+		refs := e.GetRefs()
+		vx.Assert("C04", subset(cidSet(refs), past), "every skip reference is an entry of the new entry's causal past")
+		nx := cidSet(e.GetNext())
+		for _, r := range refs {
+			vx.Assert("C04", !nx[r.String()], "skip references are distinct from the predecessors")
+		}
+		vx.Assert("C04", len(cidSet(refs)) == len(refs), "skip references contain no duplicate")
+		pc := h.pc
+		if pc == 0 {
+			pc = 1
+		}
+		if pc >= 1 {
+			vx.Assert("C04", len(refs) <= ilog2(pc)+2, "at most log2(pointer count)+2 skip references")
 		} else {
-			k := op - R
-			dst := k / (R - 1)
-			src := k % (R - 1)
-			if src >= dst {
-				src++
-			}
-			_, err := logs[dst].Join(logs[src], -1)
-			vx.Assert("C06", err == nil, "join of valid log succeeds")
+			vx.Assert("C04", len(refs) == 0, "no skip references for a non-positive pointer count")
 		}
-		for r := range logs {
-			es := logs[r].GetEntries().Slice()
-			hs := logs[r].Heads().Slice()
-			vx.Assert("C02", sameSet(hashSet(hs), refHeads(es)), "heads are exactly the unreferenced entries")
-			vx.Assert("C03", logs[r].Values().Len() == len(es), "values complete")
+		if len(refs) > 0 {
+			vx.Cover("append-with-refs")
 		}
-	}
-	// exchange: X merges 0 then 1; Y merges 1 then 0
-	X := newLog(api, ids[0], sorting.SortByEntryHash)
-	Y := newLog(api, ids[1], sorting.SortByEntryHash)
-	X.Join(logs[0], -1)
-	X.Join(logs[1], -1)
-	Y.Join(logs[1], -1)
-	Y.Join(logs[0], -1)
-	Y.Join(logs[1], -1)
-	vx.Assert("C01", sameSet(hashSet(X.GetEntries().Slice()), hashSet(Y.GetEntries().Slice())), "same entries")
-	vx.Assert("C01", sameSet(hashSet(X.Heads().Slice()), hashSet(Y.Heads().Slice())), "same heads")
-	xv, yv := X.Values().Slice(), Y.Values().Slice()
-	vx.Assert("C01", len(xv) == len(yv), "same length")
-	for i := range xv {
-		if i < len(yv) {
-			vx.Assert("C01", xv[i].GetHash().String() == yv[i].GetHash().String(), "same linearisation")
-		}
-	}
-	vx.Cover("hist-done")
+	})
 }
 
-var _ = register("H_smoke", H_smoke)
-var _ = register("H_hist", H_hist)
-var _ = register("H_hist2", H_hist2)
-var _ = register("H_hist3", H_hist3)
+func keys(m map[string]bool) []string {
+	var out []string
+	for k := range m {
+		out = append(out, k)
+	}
+	return out
+}
+
+// ---- C05: append-only ----
+
+type entrySnap struct {
+	hash, logID, payload, key, sig, clockID string
+	next, refs                             []string
+	v                                      uint64
+	time                                   int
+	c                                      cid.Cid
+}
+
+func snapEntry(e iface.IPFSLogEntry) entrySnap {
+	s := entrySnap{c: e.GetHash(), hash: hstr(e), logID: e.GetLogID(), payload: string(e.GetPayload()), key: string(e.GetKey()), sig: string(e.GetSig()),
+		clockID: string(e.GetClock().GetID()), v: e.GetV(), time: e.GetClock().GetTime()}
+	for _, n := range e.GetNext() {
+		s.next = append(s.next, n.String())
+	}
+	for _, r := range e.GetRefs() {
+		s.refs = append(s.refs, r.String())
+	}
+	return s
+}
+
+func sameStrs(a, b []string) bool {
+	if len(a) != len(b) {
+		return false
+	}
+	for i := range a {
+		if a[i] != b[i] {
+			return false
+		}
+	}
+	return true
+}
+
+func (s entrySnap) equalTo(e iface.IPFSLogEntry) bool {
+	t := snapEntry(e)
+	return vx.And(s.hash == t.hash && s.logID == t.logID && s.payload == t.payload && s.key == t.key && s.sig == t.sig && s.clockID == t.clockID && s.v == t.v &&
+		sameStrs(s.next, t.next) && sameStrs(s.refs, t.refs), s.time == t.time)
+}
+
+type logSnap struct {
+	entries []entrySnap
+	values  []iface.IPFSLogEntry
+	n       int
+}
+
+func snapLog(l *ipfslog.IPFSLog) logSnap {
+	s := logSnap{values: l.Values().Slice(), n: l.Len()}
+	for _, e := range entriesOf(l) {
+		s.entries = append(s.entries, snapEntry(e))
+	}
+	return s
+}
+
+func H_C05_hist() {
+	h := newHist(histParams())
+	var snaps []logSnap
+	h.run(func(h *hist) {
+		snaps = nil
+		for _, l := range h.logs {
+			snaps = append(snaps, snapLog(l))
+		}
+	}, func(h *hist) {
+		if h.kind == opReload {
+			return // a rebuilt replica is a new log instance
+		}
+		for r, l := range h.logs {
+			s := snaps[r]
+			for _, es := range s.entries {
+				c := es.c
+				got, ok := l.Get(c)
+				vx.Assert("C05", ok && got != nil, "an entry once in the log stays retrievable by its hash")
+				if ok && got != nil {
+					vx.Assert("C05", es.equalTo(got), "a stored entry keeps identical content")
+				}
+				vx.Assert("C05", l.Has(c), "Has() keeps reporting a stored entry")
+			}
+			vx.Assert("C05", l.Len() >= s.n, "the entry count never decreases")
+			if r != h.dst {
+				vx.Assert("C05", l.Len() == s.n && sameSeq(l.Values().Slice(), s.values), "an operation on one log instance does not alter another instance")
+			}
+			if h.strictTotal() {
+				vx.Assert("C05", isSubsequence(s.values, l.Values().Slice()), "the previous linearised view is a subsequence of the new one")
+			}
+		}
+		if h.kind == opJoin && h.err == nil {
+			vx.Cover("join")
+		}
+		// snapshot accessors return copies: mutating them does not change the log
+		l := h.logs[h.dst]
+		n := l.Len()
+		cp := l.GetEntries()
+		cp.Set("bogus", &entry.Entry{Hash: vx.Cid(90), LogID: "X"})
+		vx.Assert("C05", l.Len() == n && l.GetEntries().Len() == n, "mutating the map returned by GetEntries() does not change the log")
+	})
+}
+
+// ---- C01: convergence ----
+
+func freshObserver(h *hist, w int) *ipfslog.IPFSLog {
+	return newLogOpt(h.api, h.ids[w%h.cfg.W], &ipfslog.LogOptions{SortFn: h.sortFn()})
+}
+
+func H_C01_hist() {
+	h := newHist(histParams())
+	h.run(nil, nil)
+	R := h.cfg.R
+	// union of everything the replicas hold
+	all := map[string]bool{}
+	var allEntries []iface.IPFSLogEntry
+	for _, l := range h.logs {
+		for _, e := range entriesOf(l) {
+			if !all[hstr(e)] {
+				all[hstr(e)] = true
+				allEntries = append(allEntries, e)
+			}
+		}
+	}
+	// X absorbs the replicas in index order; Y in a symbolic permutation, with a symbolic grouping
+	// (directly, or the first two through a temporary log = associativity) and a repeated merge (idempotence).
+	X := freshObserver(h, 0)
+	for r := 0; r < R; r++ {
+		_, err := X.Join(h.logs[r], -1)
+		vx.Assert("C01", err == nil, "merging a valid replica succeeds")
+	}
+	var perm []int
+	if R == 2 {
+		perm = [][]int{{0, 1}, {1, 0}}[vx.Choice("perm", 2)]
+	} else {
+		perm = perms3[vx.Choice("perm", 6)]
+	}
+	Y := freshObserver(h, 1)
+	grouping := vx.Choice("grouping", 2)
+	if grouping == 1 {
+		T := freshObserver(h, 0)
+		T.Join(h.logs[perm[0]], -1)
+		T.Join(h.logs[perm[1]], -1)
+		Y.Join(T, -1)
+		for _, r := range perm[2:] {
+			Y.Join(h.logs[r], -1)
+		}
+		vx.Cover("grouped-merge")
+	} else {
+		for _, r := range perm {
+			Y.Join(h.logs[r], -1)
+		}
+	}
+	Y.Join(h.logs[perm[0]], -1) // repetition
+	xe, ye := entriesOf(X), entriesOf(Y)
+	vx.Assert("C01", sameSet(hashSet(xe), all), "a replica that merged every replica holds the union of their entries")
+	vx.Assert("C01", sameSet(hashSet(xe), hashSet(ye)), "same set of entries whatever the order, grouping or repetition of merges")
+	xh, yh := X.Heads().Slice(), Y.Heads().Slice()
+	vx.Assert("C01", sameSet(hashSet(xh), hashSet(yh)), "same heads whatever the order, grouping or repetition of merges")
+	vx.Assert("C01", sameSet(hashSet(xh), refHeads(allEntries)), "heads of the merged replicas are the unreferenced entries of the union")
+	if h.strictTotal() {
+		vx.Assert("C01", sameSeq(X.Values().Slice(), Y.Values().Slice()), "same linearised values under a strict total ordering")
+		vx.Assert("C01", sameSeq(xh, yh), "same sorted head sequence under a strict total ordering")
+	}
+	// merging with itself, an empty log, or a log of another id changes nothing
+	before := snapLog(X)
+	bh := hashSet(X.Heads().Slice())
+	X.Join(X, -1)
+	X.Join(freshObserver(h, 1), -1)
+	other := newLogOpt(h.api, h.ids[0], &ipfslog.LogOptions{ID: "other", SortFn: h.sortFn()})
+	other.Append(ctx, []byte("zz"), nil)
+	X.Join(other, -1)
+	X.Join(Y, -1) // already merged state
+	vx.Assert("C01", X.Len() == before.n && sameSeq(X.Values().Slice(), before.values) && sameSet(hashSet(X.Heads().Slice()), bh),
+		"merging with itself, an empty log, a log of another id or an already merged log changes nothing")
+	vx.Cover("exchange-done")
+}
+
+var _ = register("H_C01_hist", H_C01_hist)
+var _ = register("H_C02_hist", H_C02_hist)
+var _ = register("H_C03_hist", H_C03_hist)
+var _ = register("H_C04_hist", H_C04_hist)
+var _ = register("H_C05_hist", H_C05_hist)
